@@ -1,25 +1,31 @@
 """C14 — resource limits are hard bounds and hitting one is recoverable.
 
-R1 who-may-grow, R2 check dominates growth with the exact boundary,
-R3 every executed instruction is metered, R4 a limit hit is side-effect free."""
-from ..core import (callee_of, expr_walk, expr_str, TRY_BRANCH, return_defs, short, op_place,
-                    MissingAnchor)
-from .. import awrite
-from ..pathq import try_continue_block, bool_branch, blocks_reaching, cmp_of
+R1 who-may-grow, R2 a refusal test with the exact boundary guards every growth,
+R3 every executed instruction is metered, R4 a limit hit is side-effect free.
+
+All rules are phrased over *views* (inline.View with every local helper spliced in and correlated branches threaded), and
+the anchors are found by what the code does (which function grows the stack / the heap / increments the meter), not by
+function names: renaming the check functions, folding them into the primitive or factoring the comparison into a shared
+`limit_reached(used, limit)` helper leaves the verdict unchanged."""
+from ..core import (callee_of, expr_walk, expr_str, TRY_BRANCH, return_defs, short, op_place, MissingAnchor)
+from .. import awrite, inline, stepfx
+from ..pathq import blocks_reaching, exists_path_avoiding, error_blocks, edge_guards, cmp_on_side, FLIP
+from ..zone import strip as zstrip
 
 EXPLANATION = (
     "Decides the step case of the invariant 'data stack <= S, heap <= H, executed instructions <= N' from the MIR of the "
-    "real build: (R1) every growing write to State.data_stack / State.heap / State.insn_meter anywhere in the crate is in "
-    "the one metered primitive (push_data / alloc_heap / insn_meter_increase) or a reviewed exception; (R2) in each "
-    "primitive the growth is dominated by the Ok edge of its limit check and the check errs exactly when the pre-growth "
-    "size >= limit; (R3) the only functions that dispatch on Opcode and call through XfnPtr are fetch_and_run / "
-    "run_immediate, and in fetch_and_run the meter check dominates the dispatch; (R4) on the Err edge of each check no "
-    "State field has been written. Not decided: behaviour when a limit is lowered below the current size; limits inside "
-    "reverse_changes (it only re-inserts what a logged pop removed).")
-RULE_TEXT = ("instances = (field, writer function, write kind) triples found by the A-WRITE analysis over all 850 bodies, "
-             "plus one obligation per limit check (dominance, comparison operator and operands read from MIR, "
-             "side-effect freedom of the Err path); non-trivial = needed a dominance/path/provenance query rather than a "
-             "table lookup")
+    "real build: (R1) every growing write to State.data_stack / State.heap anywhere in the crate is either a reviewed "
+    "exception or satisfies R2 where it stands; writes to insn_meter are the reset in set_insn_limit and the +1 inside the "
+    "step function; the three limit fields are written by their setters only; (R2) each growth is reached only over the "
+    "false edge of a comparison `size >= limit` between the pre-growth size and the configured limit (exact boundary), and "
+    "the true edge leads only to Err returns; (R3) the only functions that dispatch native words through XfnPtr are "
+    "fetch_and_run / run_immediate, fetch_and_run is called by run/next only, and inside it the meter test-and-increment "
+    "dominates the Opcode switch and every state-changing call; (R4) no State field is written on any path from the entry of "
+    "a metered primitive to its refusal. Not decided: behaviour when a limit is lowered below the current size; limits "
+    "inside reverse_changes (it only re-inserts what a logged pop removed).")
+RULE_TEXT = ("instances = (field, writer function, write kind) triples found by the A-WRITE analysis over all bodies, plus per "
+             "growth site: the guarding comparison (operator, operands, polarity read from MIR), the refusing side, the writes "
+             "before it; non-trivial = needed an edge-dominance / path / provenance query rather than a table lookup")
 ASSUMPTIONS = [
     "rustc MIR construction and Instance resolution are correct for the analysed build (nightly 1.97, mir-opt-level 0)",
     "std Vec/Option methods behave as documented (push grows by one, len is the length)",
@@ -27,196 +33,237 @@ ASSUMPTIONS = [
 ]
 
 LIMITED = {
-    # field: (primitive, check fn, limit field, allowed other growers with reason)
-    'data_stack': ('state::State::push_data', 'state::State::check_stack_limit', 'stack_limit',
-                   {'state::State::reverse_changes': 'PushData arm re-inserts a value that a logged pop removed; cannot exceed an earlier length'}),
-    'heap': ('state::State::alloc_heap', 'state::State::check_heap_limit', 'heap_limit', {}),
+    # field: (limit field, allowed other growers with reason)
+    'data_stack': ('stack_limit', {'state::State::reverse_changes': 'PushData arm re-inserts a value that a logged pop removed; cannot exceed an earlier length'}),
+    'heap': ('heap_limit', {}),
 }
-METER_WRITERS = {'state::State::insn_meter_increase': 'increment', 'state::State::set_insn_limit': 'reset to 0'}
+STEP = 'state::State::fetch_and_run'
+
+
+def _full_view(fx):
+    # nothing is opaque except the functions the rule statement itself is about
+    return inline.View(fx, vocabulary={STEP, 'state::State::run', 'state::State::next', 'state::State::run_immediate',
+                                       'state::State::reverse_changes'}, depth=3, use_global=False)
+
+
+def limit_guard(v, bb, size_pred, limit_field):
+    """the comparison `size >= limit` whose false edge every path to bb takes: (branch block, refusing target, text) or
+    (None, None, why-not)"""
+    seen_any = None
+    for (b2, e, side) in edge_guards(v, bb):
+        c = cmp_on_side(e, side)
+        if c is None:
+            continue
+        op, a, b = c
+        sa, sb = expr_str(zstrip(a), -14), expr_str(zstrip(b), -14)
+        if ('.' + limit_field) in sa and size_pred(sb):
+            op, a, b, sa, sb = FLIP[op], b, a, sb, sa
+        if ('.' + limit_field) in sb and not size_pred(sa):
+            seen_any = seen_any or ('%s %s %s [left side is not the whole size]' % (sa[:60], op, sb[:40]))
+            continue
+        if not (size_pred(sa) and ('.' + limit_field) in sb):
+            continue
+        seen_any = '%s %s %s' % (sa[:50], op, sb[:50])
+        if op == 'Lt':
+            t = v.blocks[b2]['term']
+            listed = dict((val, tg) for val, tg in t['targets'])
+            false_t = listed.get(0)
+            refusing = t['otherwise'] if side is False else false_t
+            unlimited = 'unwrap_or' in sb or 'MAX' in sb or '18446744073709551615' in sb
+            return b2, refusing, 'growth only if %s < %s%s' % (sa[:40], sb[:60], '' if unlimited else ' (no unwrap_or(MAX): an unset limit?)')
+    return None, None, ('the limit is tested as `%s`, not as the exact `whole size < limit`' % seen_any) if seen_any else \
+        'no comparison of the pre-growth size with State.%s guards the growth' % limit_field
 
 
 def run(rep, facts, tier):
     fx = facts['dev']
-    rep.rule('C14.R1', 'who may grow: growing writes to data_stack / heap and writes to insn_meter only in the metered primitives')
-    rep.rule('C14.R2', 'the limit check dominates the growth and errs exactly when pre-growth size >= limit')
-    rep.rule('C14.R3', 'every executed instruction is metered: single dispatch function, meter check dominates dispatch')
-    rep.rule('C14.R4', 'hitting a limit changes nothing: no State write before the Err edge of a check')
+    rep.rule('C14.R1', 'who may grow: every growing write to data_stack / heap is metered where it stands (R2) or a reviewed exception; insn_meter and the limit fields have fixed writers')
+    rep.rule('C14.R2', 'a refusal test with the exact boundary guards every growth: growth only if pre-growth size < limit, the other side only fails')
+    rep.rule('C14.R3', 'every executed instruction is metered: single dispatch function, the meter test-and-increment dominates the dispatch')
+    rep.rule('C14.R4', 'hitting a limit changes nothing: no State write before the refusal')
     tracked = awrite.state_tracked(fx)
     W = awrite.all_field_writes(fx, 'state', tracked)
+    V = _full_view(fx)
+    Vg = inline.View(fx)
 
-    # ---------------- R1
+    def helper(fn):
+        return Vg.transparent(fn) and bool(fx.callers().get(fn))
+
+    # ---------------- R1 + R2 + R4 for stack and heap: look at every function that is not an unnamed helper, through its view
     n_r1 = 0
-    for fn, ws in sorted(W.items()):
+    n_growth = 0
+    owners = {fld: set() for fld in LIMITED}
+    for fn in sorted(fx.fns):
+        if helper(fn):
+            continue
+        own = W.get(fn, [])
+        reach_helpers = [g for g in fx.reachable_from([fn]) if g != fn and g in fx.fns and helper(g)] if not own else []
+        if not any(w['field'][0] in LIMITED or w['field'][0] in ('insn_meter', 'insn_limit', 'stack_limit', 'heap_limit') for w in own) and \
+                not any(any(w['field'][0] in LIMITED for w in W.get(g, [])) for g in reach_helpers):
+            continue
+        v = V(fn)
+        ws = awrite.field_writes(fx, v, tracked) if v is not fx.fns[fn] else own
         for w in ws:
             fld = w['field'][0]
+            how = w['how']
+            inl = (w.get('stmt') or w.get('term') or {}).get('inl')
+            if inl and inl in fx.fns and not helper(inl) and inl != fn and '{closure' not in inl:
+                continue          # belongs to a named function spliced into this view: judged there
             if fld in LIMITED:
-                prim, _chk, _lim, allowed = LIMITED[fld]
-                how = w['how']
+                limf, allowed = LIMITED[fld]
                 whole = not w.get('elem')
                 grows = how.startswith('call:grow') or (whole and (how.startswith('call:unknown') or
                                                                    how.startswith('assign') and len(w['field']) == 1 or
                                                                    how.startswith('call:overwrite')))
+                n_r1 += 1
+                key = 'C14.R1:%s:%s:%s' % (fld, fn, how)
                 if not grows:
-                    rep.add('C14.R1', 'C14.R1:%s:%s:%s' % (fld, fn, how), True,
-                            'non-growing write (%s)' % how, fn, w['at'], nontrivial=False)
-                    n_r1 += 1
+                    rep.add('C14.R1', key, True, 'non-growing write (%s)' % how, fn, w['at'], nontrivial=False)
                     continue
-                ok = fn == prim or fn in allowed
-                why = ('growth of %s in its metered primitive' % fld) if fn == prim else \
-                    ('reviewed exception: ' + allowed[fn]) if fn in allowed else \
-                    ('%s grows/overwrites State.%s (%s) outside %s: the limit check is bypassed' % (fn, fld, how, prim))
-                rep.add('C14.R1', 'C14.R1:%s:%s:%s' % (fld, fn, how), ok, why, fn, w['at'])
-                n_r1 += 1
+                if fn in allowed:
+                    rep.add('C14.R1', key, True, 'reviewed exception: ' + allowed[fn], fn, w['at'])
+                    continue
+                n_growth += 1
+                # the whole length of the container: `len(&self.<field>)` itself, not a difference (visible depth) or other arithmetic
+                size_pred = (lambda s, fld=fld: ('.' + fld) in s and 'len(' in s and not any(x in s for x in ('Sub(', 'Add(', 'Mul(', 'Div(', 'ds_len', 'data_depth')))
+                gb, refusing, why = limit_guard(v, w['bb'], size_pred, limf)
+                ok = gb is not None
+                rep.add('C14.R1', key, ok, 'growth of %s behind its limit test (R2)' % fld if ok else
+                        '%s grows/overwrites State.%s (%s) without the limit test: %s' % (short(fn), fld, how, why), fn, w['at'])
+                if not ok:
+                    continue
+                owners[fld].add(fn)
+                rep.add('C14.R2', 'C14.R2:%s:%s:check-guards-growth' % (fn, fld), True, why, fn, w['at'])
+                # the refusing side only fails
+                rets = set(v.return_blocks())
+                errs = error_blocks(v)
+                p = exists_path_avoiding(v, refusing, lambda b: b in rets, errs) if refusing not in errs else None
+                rep.add('C14.R2', 'C14.R2:%s:%s:boundary' % (fn, fld), p is None,
+                        'Err iff pre-growth size >= limit: exactly "never more than the limit"' if p is None else
+                        'on the `size >= limit` side %s can still return without an error (bb%s)' % (short(fn), '->bb'.join(map(str, p[:8]))),
+                        fn, v.at(gb))
+                # R4: nothing written on the way to the refusal
+                region = blocks_reaching(v, {gb})
+                bad = sorted({'%s %s' % ('.'.join(x['field']), x['how']) for x in ws if x['bb'] in region and x['bb'] != w['bb']})
+                ind = [b for b in region if v.blocks[b]['term']['k'] == 'call' and callee_of(v.blocks[b]['term']) is None]
+                rep.add('C14.R4', 'C14.R4:%s:%s:no-write-before-check' % (fn, fld), not bad and not ind,
+                        'no State field is written between entry and the limit test: a refused operation leaves the state as it was'
+                        if not bad and not ind else 'state is modified before the limit test can refuse: ' + '; '.join(bad[:4] + ['indirect call'] * bool(ind)),
+                        fn, v.at(gb))
             elif fld == 'insn_meter':
-                ok = fn in METER_WRITERS
-                rep.add('C14.R1', 'C14.R1:insn_meter:%s:%s' % (fn, w['how']), ok,
-                        METER_WRITERS.get(fn, '%s writes State.insn_meter: the instruction count can be forged' % fn),
-                        fn, w['at'])
                 n_r1 += 1
+                st = w.get('stmt')
+                is_reset = st is not None and st['rv']['k'] == 'use' and 'c' in st['rv']['o'] and st['rv']['o']['c'].get('v') == 0
+                if fn == STEP:
+                    continue      # judged in R3
+                ok = is_reset and fn == 'state::State::set_insn_limit'
+                rep.add('C14.R1', 'C14.R1:insn_meter:%s:%s' % (fn, how), ok, 'reset to 0 when a new limit is set' if ok else
+                        '%s writes State.insn_meter outside the step function: instructions are counted where not every driver passes, '
+                        'or the count can be forged' % short(fn), fn, w['at'])
             elif fld in ('insn_limit', 'stack_limit', 'heap_limit'):
+                n_r1 += 1
                 setter = 'state::State::set_' + fld
                 ok = fn == setter
-                rep.add('C14.R1', 'C14.R1:%s:%s:%s' % (fld, fn, w['how']), ok,
+                rep.add('C14.R1', 'C14.R1:%s:%s:%s' % (fld, fn, how), ok,
                         'limit written by its setter' if ok else '%s writes State.%s outside its setter' % (fn, fld),
                         fn, w['at'], nontrivial=False)
-                n_r1 += 1
-    rep.floor('C14.R1 writers of limited fields', n_r1, 14)
+    rep.floor('C14.R1 writers of limited fields', n_r1, 10)
+    rep.floor('C14.R2 metered growth sites', n_growth, 2)
+    for fld in LIMITED:
+        rep.add('C14.R2', 'C14.R2:%s:has-metered-primitive' % fld, bool(owners[fld]),
+                'growth of %s happens in %s' % (fld, sorted(short(o) for o in owners[fld])) if owners[fld] else
+                'no function grows State.%s behind a limit test' % fld, None, None, nontrivial=False)
 
-    # ---------------- R2 / R4 for stack and heap
-    for fld, (prim, chk, limf, _a) in LIMITED.items():
-        pf = fx.need(prim)
-        cf = fx.need(chk)
-        # growth site(s) in the primitive
-        grow_sites = [w for w in W.get(prim, []) if w['field'][0] == fld and w['how'].startswith('call:grow')]
-        if not grow_sites:
-            rep.add('C14.R2', 'C14.R2:%s:no-growth-site' % prim, False, 'no growing write to %s found in %s' % (fld, prim), prim)
-            continue
-        chk_calls = [(bb, t) for bb, t in pf.calls() if callee_of(t) == chk]
-        if not chk_calls:
-            rep.add('C14.R2', 'C14.R2:%s:check-dominates-growth' % prim, False,
-                    '%s does not call %s at all: growth of %s is unchecked' % (prim, short(chk), fld), prim, pf.at(grow_sites[0]['bb']))
-        for g in grow_sites:
-            ok = False
-            why = 'no `?`-propagated call to %s dominates the growth' % short(chk)
-            for bb, t in chk_calls:
-                cont = try_continue_block(pf, bb)
-                if cont is None:
-                    why = 'result of %s is not propagated with `?` (error ignored)' % short(chk)
-                    continue
-                if pf.dominates(cont, g['bb']):
-                    ok = True
-                    why = 'Vec::push at bb%d is dominated by the Ok edge (bb%d) of %s()?' % (g['bb'], cont, short(chk))
-            rep.add('C14.R2', 'C14.R2:%s:check-dominates-growth' % prim, ok, why, prim, g['at'])
-        # boundary inside the check fn
-        check_boundary(rep, fx, cf, chk, fld, limf, size_kind='len')
-        # R4: nothing written before the Err edge
-        no_write_before(rep, fx, W, pf, prim, [bb for bb, _ in chk_calls], 'C14.R4:%s' % prim)
-        no_write_in(rep, fx, W, chk, 'C14.R4:%s' % chk)
-
-    # ---------------- R2 for the instruction meter
-    mf = fx.need('state::State::insn_meter_increase')
-    check_boundary(rep, fx, mf, 'state::State::insn_meter_increase', 'insn_meter', 'insn_limit', size_kind='field')
-    # increment must be on the non-error side and the Err must not follow the increment
-    incs = [w for w in W.get('state::State::insn_meter_increase', []) if w['field'][0] == 'insn_meter']
-    errs = [(bb, i) for (bb, i, cls, d) in return_defs(mf) if cls == 'err']
-    for w in incs:
-        after_err = any(w['bb'] in blocks_reaching(mf, {eb}) and not mf.dominates(eb, w['bb']) and eb != w['bb'] and
-                        _reaches(mf, w['bb'], eb) for eb, _ in errs)
-        rep.add('C14.R2', 'C14.R2:insn_meter_increase:increment-after-check', not after_err,
-                'the increment is not followed by the limit error (the failing instruction is not counted, so it can be retried)'
-                if not after_err else 'the Err return is reachable after the increment: a refused instruction is still counted',
-                mf.name, w['at'])
-    # the increment must be +1
+    # ---------------- R2/R3 for the instruction meter: inside the step function
+    fx.need(STEP)
+    far = V(STEP)
+    ws = awrite.field_writes(fx, far, tracked)
+    incs = [w for w in ws if w['field'][0] == 'insn_meter']
+    if not incs:
+        rep.add('C14.R3', 'C14.R3:fetch_and_run:meter-call', False,
+                'fetch_and_run does not count the instruction it executes (no write to insn_meter on its paths): a driver that calls it '
+                'directly runs unmetered', STEP, far.j['span'])
     for w in incs:
         st = w.get('stmt')
-        ok = False
+        one = False
         if st is not None:
-            e = mf.expr_of_rvalue(st['rv'], 0, frozenset())
-            txt = expr_str(e)
-            ok = ('AddWithOverflow' in txt or 'Add(' in txt) and 'const 1' in txt.replace('1)', 'const 1)') or \
-                any(isinstance(x, tuple) and x[0] == 'bin' and x[1] in ('Add', 'AddWithOverflow', 'AddUnchecked') and
-                    any(isinstance(y, tuple) and y[0] == 'const' and y[1].get('v') == 1 for y in (x[2], x[3]))
-                    for x in expr_walk(e))
-        rep.add('C14.R2', 'C14.R2:insn_meter_increase:step-is-one', ok,
-                'meter advances by exactly 1 per instruction' if ok else 'meter increment is not `+ 1`', mf.name, w['at'])
-
-    # ---------------- R3
-    far = fx.need('state::State::fetch_and_run')
-    meter_calls = [(bb, t) for bb, t in far.calls() if callee_of(t) == 'state::State::insn_meter_increase']
-    cont = None
-    for bb, t in meter_calls:
-        cont = try_continue_block(far, bb)
-    if cont is None:
-        rep.add('C14.R3', 'C14.R3:fetch_and_run:meter-call', False,
-                'fetch_and_run has no `?`-propagated call to insn_meter_increase', far.name, far.j['span'])
-    else:
-        # every call that can change state (anything but the pure accessor State::ip) must be dominated
+            e = far.expr_of_rvalue(st['rv'], 0, frozenset())
+            one = any(isinstance(x, tuple) and x[0] == 'bin' and x[1] in ('Add', 'AddWithOverflow', 'AddUnchecked') and
+                      any(isinstance(y, tuple) and y[0] == 'const' and y[1].get('v') == 1 for y in (x[2], x[3])) for x in expr_walk(e))
+        rep.add('C14.R2', 'C14.R2:insn_meter:step-is-one', one, 'meter advances by exactly 1 per instruction' if one else 'meter increment is not `+ 1`',
+                STEP, w['at'])
+        gb, refusing, why = limit_guard(far, w['bb'], lambda s: '.insn_meter' in s, 'insn_limit')
+        rep.add('C14.R2', 'C14.R2:insn_meter:check-guards-increment', gb is not None,
+                why if gb is not None else 'the instruction counter is advanced without the exact `meter < limit` test: %s' % why, STEP, w['at'])
+        if gb is None:
+            continue
+        rets = set(far.return_blocks())
+        errs = error_blocks(far)
+        p = exists_path_avoiding(far, refusing, lambda b: b in rets, errs) if refusing not in errs else None
+        rep.add('C14.R2', 'C14.R2:insn_meter:boundary', p is None,
+                'Err iff instructions executed >= limit; the refused instruction is not counted' if p is None else
+                'on the `meter >= limit` side the step can still complete (bb%s)' % '->bb'.join(map(str, p[:8])), STEP, far.at(gb))
+        # the increment (hence the test) dominates the dispatch
         n = 0
         bad = []
         for bb, t in far.calls():
             c = callee_of(t)
-            if c in ('state::State::ip', 'state::State::insn_meter_increase') or c in TRY_BRANCH:
+            if bb == w['bb'] or c in TRY_BRANCH or c in ('state::State::ip',):
                 continue
-            if c is not None and c.startswith('<') and 'from_residual' in c:
+            if c is not None and 'from_residual' in c:
                 continue
+            if far.blocks[bb]['term'].get('inl') and bb in blocks_reaching(far, {w['bb']}):
+                continue      # part of the spliced meter helper itself (format!/error construction on the refusing side)
             n += 1
-            if not far.dominates(cont, bb):
+            if not far.dominates(w['bb'], bb) and bb not in blocks_reaching(far, {refusing}) and not _only_after_refusal(far, bb, refusing):
                 bad.append((bb, c or 'indirect call'))
         rep.add('C14.R3', 'C14.R3:fetch_and_run:meter-dominates-dispatch', not bad,
-                'insn_meter_increase()? (Ok edge bb%d) dominates all %d calls of the dispatch, including the XfnPtr call' % (cont, n)
-                if not bad else 'calls not dominated by the meter check: %s' % ', '.join('bb%d %s' % (b, short(c)) for b, c in bad[:5]),
-                far.name, far.at(meter_calls[0][0]))
-        # Opcode switch dominated
+                'the meter test-and-increment dominates all %d calls of the dispatch, including the XfnPtr call' % n
+                if not bad else 'calls not dominated by the meter: %s' % ', '.join('bb%d %s' % (b, short(c)) for b, c in bad[:5]), STEP, w['at'])
         sw = [bb for bb in far.reachable_blocks() if _switch_on_adt(far, bb, 'opcodes::Opcode')]
-        okd = bool(sw) and all(far.dominates(cont, b) for b in sw)
+        okd = bool(sw) and all(far.dominates(w['bb'], b) for b in sw)
         rep.add('C14.R3', 'C14.R3:fetch_and_run:meter-dominates-opcode-switch', okd,
-                'the Opcode switch (bb%s) is dominated by the meter check' % sw if okd else
-                'Opcode switch not found or not dominated by the meter check', far.name, far.j['span'])
-    # who dispatches: indirect calls through XfnType, and State-mutating Opcode switches
+                'the Opcode switch is dominated by the meter' if okd else 'Opcode switch not found or not dominated by the meter', STEP, far.j['span'])
+        region = blocks_reaching(far, {gb})
+        badw = sorted({'%s %s' % ('.'.join(x['field']), x['how']) for x in ws if x['bb'] in region and x is not w})
+        rep.add('C14.R4', 'C14.R4:%s:no-write-before-check' % STEP, not badw,
+                'nothing is written before the meter can refuse the instruction' if not badw else 'state is modified before the meter test: %s' % badw[:3],
+                STEP, far.at(gb))
+
+    # who dispatches: indirect calls through XfnType
     n_ind = 0
     for fn, f in sorted(fx.fns.items()):
         for bb, t in f.calls():
             if callee_of(t) is None:
-                fe = f.expr_of_operand(t['func'])
                 fty = f.ty(op_place(t['func'])['t']) if op_place(t['func']) else ''
                 if 'state::State' in fty and 'fn(' in fty:
                     n_ind += 1
-                    ok = fn in ('state::State::fetch_and_run', 'state::State::run_immediate')
+                    ok = fn in (STEP, 'state::State::run_immediate')
                     rep.add('C14.R3', 'C14.R3:xfn-dispatch:%s' % fn, ok,
                             'XfnPtr dispatch in the metered interpreter loop / build-time immediate runner' if ok else
-                            '%s calls a native word through XfnPtr outside fetch_and_run: unmetered execution' % fn,
-                            fn, t.get('at'))
+                            '%s calls a native word through XfnPtr outside fetch_and_run: unmetered execution' % fn, fn, t.get('at'))
     rep.floor('C14.R3 XfnPtr dispatch sites', n_ind, 2)
-    # callers of fetch_and_run
-    allowed_callers = {'state::State::run', 'state::State::next', 'state::State::fetch_and_run'}
-    for caller in sorted(fx.callers().get('state::State::fetch_and_run', ())):
+    allowed_callers = {'state::State::run', 'state::State::next', STEP}
+    for caller in sorted(stepfx.callers_seen_through(fx, Vg, STEP)):
         base = caller.split('::{closure')[0]
         ok = base in allowed_callers
         rep.add('C14.R3', 'C14.R3:caller-of-fetch_and_run:%s' % caller, ok,
                 'drives the metered step function' if ok else '%s calls fetch_and_run directly' % caller, caller,
                 fx.fns[caller].j['span'] if caller in fx.fns else None, nontrivial=False)
-    # R4 for fetch_and_run: nothing written before the meter Err edge
-    no_write_before(rep, fx, W, far, far.name, [bb for bb, _ in meter_calls], 'C14.R4:%s' % far.name)
-    # insn_meter_increase Err path: writes nothing
-    errpath_no_write(rep, fx, W, mf, 'C14.R4:%s' % mf.name)
-    # alloc_heap is the only caller path to heap growth; defvar & co go through it (call graph fact)
     rep.extra['registry_words'] = len(fx.registry()['words'])
 
 
-def _reaches(f, a, b):
-    return b in blocks_reaching_fwd(f, a)
-
-
-def blocks_reaching_fwd(f, a):
+def _only_after_refusal(f, bb, refusing):
+    """bb lies on the refusing side only (building the error message)"""
     seen = set()
-    st = [a]
+    st = [refusing]
     while st:
         x = st.pop()
-        for t in f.succ(x):
-            if t not in seen:
-                seen.add(t)
-                st.append(t)
-    return seen
+        if x in seen:
+            continue
+        seen.add(x)
+        st.extend(f.succ(x))
+    return bb in seen
 
 
 def _switch_on_adt(f, bb, adt):
@@ -225,116 +272,3 @@ def _switch_on_adt(f, bb, adt):
         return False
     e = f.expr_of_operand(t['discr'])
     return isinstance(e, tuple) and e[0] == 'discr' and e[2] == adt
-
-
-def check_boundary(rep, fx, cf, chk, fld, limf, size_kind):
-    """the Err return of `cf` must be taken exactly when size >= limit"""
-    errs = [(bb, i) for (bb, i, cls, d) in return_defs(cf) if cls == 'err']
-    key = 'C14.R2:%s:boundary' % chk
-    if not errs:
-        rep.add('C14.R2', key, False, '%s has no Err return: the limit is never enforced' % short(chk), chk, cf.j['span'])
-        return
-    found = False
-    for bb in sorted(cf.reachable_blocks()):
-        br = bool_branch(cf, bb)
-        if br is None:
-            continue
-        e, tbb, fbb = br
-        c = cmp_of(e)
-        if c is None:
-            continue
-        op, a, b, neg = c
-        sa, sb = expr_str(a), expr_str(b)
-
-        def is_size(s):
-            if size_kind == 'len':
-                return ('.%s' % fld) in s and 'len(' in s
-            return ('.%s' % fld) in s
-
-        def is_limit(s):
-            return ('.%s' % limf) in s
-        if not ((is_size(sa) and is_limit(sb)) or (is_size(sb) and is_limit(sa))):
-            continue
-        found = True
-        # normalise to size OP limit
-        if is_size(sb):
-            op = {'Ge': 'Le', 'Le': 'Ge', 'Gt': 'Lt', 'Lt': 'Gt', 'Eq': 'Eq', 'Ne': 'Ne'}[op]
-            sa, sb = sb, sa
-        if neg:
-            op = {'Ge': 'Lt', 'Lt': 'Ge', 'Gt': 'Le', 'Le': 'Gt', 'Eq': 'Ne', 'Ne': 'Eq'}[op]
-        err_on_true = any(cf.dominates(tbb, eb) for eb, _ in errs)
-        err_on_false = any(cf.dominates(fbb, eb) for eb, _ in errs)
-        # error taken iff size >= limit
-        exact = (op == 'Ge' and err_on_true and not err_on_false) or (op == 'Lt' and err_on_false and not err_on_true)
-        # also the limit operand must be unwrap_or(MAX): a None limit never errs
-        why = ('Err iff %s %s %s (pre-growth size): exactly "never more than the limit"' % (sa, '>=', sb)) if exact else \
-            ('Err is taken on `%s %s %s` (%s edge): not the exact `size >= limit` boundary' %
-             (sa, op, sb, 'true' if err_on_true else 'false' if err_on_false else 'neither'))
-        rep.add('C14.R2', key, exact, why, chk, cf.at(bb))
-    if not found:
-        rep.add('C14.R2', key, False, 'no comparison of %s size against %s found in %s' % (fld, limf, short(chk)), chk, cf.j['span'])
-
-
-def _writes_transitive(fx, W, fn, memo, stack=()):
-    if fn in memo:
-        return memo[fn]
-    if fn in stack:
-        return set()
-    out = set()
-    for w in W.get(fn, []):
-        out.add((fn, w['field'][0], w['how']))
-    for c in fx.callgraph().get(fn, ()):  # local callees only have entries
-        if c in fx.fns:
-            out |= _writes_transitive(fx, W, c, memo, stack + (fn,))
-    memo[fn] = out
-    return out
-
-
-PURE_LOCAL = {'state::State::ip', 'state::State::is_recording'}
-
-
-def no_write_before(rep, fx, W, pf, prim, check_bbs, keybase):
-    """on every path from entry to a check call (inclusive of callee), no State write"""
-    memo = {}
-    for cbb in check_bbs:
-        region = blocks_reaching(pf, {cbb})
-        region.discard(cbb)
-        bad = []
-        for w in W.get(prim, []):
-            if w['bb'] in region:
-                bad.append('%s %s' % ('.'.join(w['field']), w['how']))
-        for bb in region:
-            t = pf.blocks[bb]['term']
-            if t['k'] == 'call':
-                c = callee_of(t)
-                if c in fx.fns and c not in PURE_LOCAL:
-                    ws = _writes_transitive(fx, W, c, memo)
-                    if ws:
-                        bad.append('call %s writes %s' % (short(c), sorted({x[1] for x in ws})))
-                elif c is None:
-                    bad.append('indirect call')
-        rep.add('C14.R4', keybase + ':no-write-before-check', not bad,
-                'no State field is written between entry and the limit check: a refused operation leaves the state as it was'
-                if not bad else 'state is modified before the limit check can refuse: ' + '; '.join(bad[:4]),
-                prim, pf.at(cbb))
-
-
-def no_write_in(rep, fx, W, chk, keybase):
-    memo = {}
-    ws = _writes_transitive(fx, W, chk, memo)
-    rep.add('C14.R4', keybase + ':check-is-pure', not ws,
-            'the check function writes no State field' if not ws else 'the check function writes %s' % sorted(ws)[:3],
-            chk, fx.fns[chk].j['span'])
-
-
-def errpath_no_write(rep, fx, W, mf, keybase):
-    errs = [(bb, i) for (bb, i, cls, d) in return_defs(mf) if cls == 'err']
-    bad = []
-    for eb, _ in errs:
-        region = blocks_reaching(mf, {eb})
-        for w in W.get(mf.name, []):
-            if w['bb'] in region and w['bb'] != eb:
-                bad.append('%s %s' % ('.'.join(w['field']), w['how']))
-    rep.add('C14.R4', keybase + ':err-path-writes-nothing', not bad,
-            'no write precedes the Err return' if not bad else 'writes before the Err return: ' + '; '.join(bad), mf.name,
-            mf.j['span'])
